@@ -18,8 +18,10 @@ CFG = {
             "off; Coq searches for a linearization against Model/Srv.step. Stream C29b (caches on, TTL 10 min so nothing "
             "expires): one writer mutating shared names, 1-3 readers LOOKUP/GETATTR/ACCESS/READDIR(PLUS) the same names, negative "
             "and directory caching each on in 60%; the backend state after every successful mutating backend call is recorded "
-            "with its logical time; corpus = 5 DIRECTED schedules of the check-then-cache window (reader delayed between its "
-            "backend read and its cache store while a whole REMOVE / CREATE / WRITE / RENAME runs). Distinct = distinct observed "
+            "with its logical time; corpus = 17 DIRECTED schedules: 6 of the check-then-cache window (reader delayed between its "
+            "backend read and its cache store while a whole REMOVE / CREATE / CREATE-truncate / WRITE / RENAME runs) and 11 mirror "
+            "images (the WRITER - REMOVE, RMDIR, RENAME, CREATE - held just before or just after its backend call while a reader's "
+            "whole LOOKUP / READDIR / READDIRPLUS runs in between; attribute, negative and directory caches). Distinct = distinct observed "
             "history incl. precedence; non-trivial = at least one pair of overlapping requests of different clients and one "
             "successful backend mutation",
     "assumptions": [
@@ -41,7 +43,7 @@ CFG = {
                   "the link-free coherence invariant, C29_lookup_reply_was_state). Kept as unproved Definitions: C29_statement, "
                   "C29_commute_distinct_statement (two allocating requests, needs handle renaming), C29_cached_values_statement. "
                   "NOT proved and never claimed: that the Go implementation is race-free, deadlock-free or linearizable - that is "
-                  "SAMPLED: quick 48+32 (+5 directed) concurrent histories, thorough 1600+1600 under -race; development runs on "
+                  "SAMPLED: quick 48+32 (+17 directed) concurrent histories, thorough 1600+1600 under -race; development runs on "
                   "the current tree: 2000 distinct-names histories (about 50 000 requests, 60 000 overlapping pairs) all "
                   "linearizable, 4000 caches-on histories with no reply showing a state the object was never in and the probe "
                   "round equal to the twin server's; no race report, panic, deadlock or goroutine leak.",
